@@ -1,9 +1,12 @@
 package verifsim
 
 import (
+	"bytes"
 	"context"
 	"encoding/json"
 	"fmt"
+	"net/http"
+	"net/http/httptest"
 	"os"
 	"path/filepath"
 	"runtime"
@@ -423,4 +426,122 @@ func execRace(x *X) {
 	x.Probe("race-workload-completed")
 	x.Log.Event(0, 0, "race", "done", fmt.Sprint(len(ops), g, procs))
 	_ = t0
+}
+
+// ---------------------------------------------------------------------------
+// race monitor over the bulk pipeline: several free-running bulk streams, the HTTP-style
+// ones on one shared server instance, under the race detector; the pairing oracle is
+// applied to what each client received.
+
+func init() {
+	pd := props["C15"]
+	pd.Checks = append(pd.Checks, &CheckDef{
+		Name:      "racebulk",
+		NeedsRace: true,
+		NumRuns: func(c *Ctx) int64 {
+			if c.Tier == "thorough" {
+				return 400
+			}
+			return 40
+		},
+		Plan: func(c *Ctx, run int64) *Plan {
+			r := RNG(c.Seed, run, 28)
+			p := &Plan{Prop: "C15", Check: "racebulk", Seed: c.Seed, Run: run, Knobs: map[string]int64{
+				"gomaxprocs": []int64{1, 4, 16}[int(run)%3], "streams": int64(2 + r.IntN(5)),
+			}}
+			docs := c.Corpus.Valid
+			id := 0
+			for s := int64(0); s < p.Knobs["streams"]; s++ {
+				p.Knobs[fmt.Sprintf("http%d", s)] = int64(r.IntN(3) / 1 % 2)
+				if r.IntN(3) > 0 {
+					p.Knobs[fmt.Sprintf("http%d", s)] = 1
+				}
+				for i, n := 0, 1+r.IntN(24); i < n; i++ {
+					id++
+					op := Op{ID: id, K: "req", N: s, S: Pick(r, []string{"ping", "ping", "build", "validate", "sign", "verify", "schemas", "regime", "sleep", "unknown", "keygen"}), S2: Pick(r, docs).Name, B: Chance(r, 0.2)}
+					if op.S == "sleep" {
+						op.I = Pick(r, []int64{1000, 50000, 1000000, 3000000})
+					}
+					p.Ops = append(p.Ops, op)
+				}
+			}
+			return p
+		},
+		Exec:             execRaceBulk,
+		CrashIsViolation: true,
+	})
+}
+
+func execRaceBulk(x *X) {
+	old := runtime.GOMAXPROCS(int(x.P.Knob("gomaxprocs", 4)))
+	defer runtime.GOMAXPROCS(old)
+	n := int(x.P.Knob("streams", 2))
+	streams := make([]*bulkStream, n)
+	counts := make([]int, n)
+	for i := range streams {
+		streams[i] = &bulkStream{idx: i, style: "cli", expect: map[int64]string{}}
+		if x.P.Knob(fmt.Sprintf("http%d", i), 0) == 1 {
+			streams[i].style = "http"
+		}
+	}
+	for _, op := range x.P.Ops {
+		s := int(op.N)
+		if op.K != "req" || s >= n {
+			continue
+		}
+		counts[s]++
+		rq := x.buildRequest(op, counts[s])
+		streams[s].reqs = append(streams[s].reqs, rq)
+	}
+	// the oracle first, sequentially (none of these actions depends on the clock beyond the date)
+	for _, st := range streams {
+		for i := range st.reqs {
+			st.nOK++
+			st.input = append(st.input, st.reqs[i].line()...)
+			st.expect[int64(i+1)] = standalone(&st.reqs[i], 0)
+		}
+	}
+	server := HTTPHandler(PrivKey(0))
+	var wg sync.WaitGroup
+	start := make(chan struct{})
+	for _, st := range streams {
+		st := st
+		wg.Add(1)
+		go func() {
+			defer wg.Done()
+			<-start
+			if st.style == "http" {
+				code, body := 0, []byte(nil)
+				req := httptest.NewRequest(http.MethodPost, "/bulk", bytes.NewReader(st.input))
+				rec := httptest.NewRecorder()
+				server.ServeHTTP(rec, req)
+				code, body = rec.Code, rec.Body.Bytes()
+				_ = code
+				dec := json.NewDecoder(bytes.NewReader(body))
+				for {
+					var r wireResp
+					if err := dec.Decode(&r); err != nil {
+						break
+					}
+					st.resp = append(st.resp, r)
+				}
+			} else {
+				for res := range cli.Bulk(context.Background(), &cli.BulkOptions{In: bytes.NewReader(st.input), DefaultPrivateKey: PrivKey(0)}) {
+					st.resp = append(st.resp, toWire(res))
+				}
+			}
+		}()
+	}
+	close(start)
+	wg.Wait()
+	for _, st := range streams {
+		st.httpOut = nil
+		style := st.style
+		st.style = "cli" // responses are already collected in st.resp
+		x.checkStream(st)
+		st.style = style
+	}
+	x.R.Nontrivial = true
+	x.Probe("race-bulk-workload-completed")
+	x.Log.Event(0, 0, "racebulk", "done", fmt.Sprint(n))
 }
